@@ -14,7 +14,7 @@ Modes == {"none", "degree", "sort"}
 
 VARIABLES ts, hist, start, last, mode
 vars == <<ts, hist, start, last, mode>>
-Op(name, i, t) == [op |-> name, i |-> i, t |-> t]
+Op(name, i, t) == [op |-> name, i |-> i, t |-> t, j |-> 0]
 
 Init == /\ start \in DOMAIN Starts /\ mode \in Modes /\ ts = F!Reorder(mode, Starts[start]) /\ hist = <<>> /\ last = "init"
 Next == /\ Len(hist) < MaxOps /\ UNCHANGED <<start, mode>>
@@ -29,6 +29,9 @@ Next == /\ Len(hist) < MaxOps /\ UNCHANGED <<start, mode>>
            \/ \E p \in DOMAIN Pool : /\ hist' = Append(hist, Op("remove", 0, Name(Pool[p])))
                  /\ IF F!IndexOf(ts, Pool[p]) >= 0 THEN ts' = F!DelItem(ts, F!IndexOf(ts, Pool[p])) /\ last' = "ok" ELSE ts' = ts /\ last' = "ValueError"
            \/ ts' = F!Extend(mode, ts, <<Pool[7], Pool[1]>>) /\ hist' = Append(hist, Op("extend", 0, "b:a,1")) /\ last' = "ok"
+           \/ \E i \in 0..2, w \in 0..2 : /\ ts' = F!SetSlice(mode, ts, i, i + w, <<Pool[4], Pool[1]>>)
+                 /\ hist' = Append(hist, [op |-> "setslice", i |-> i, t |-> "a:b,1", j |-> i + w]) /\ last' = "ok"
+           \/ \E i \in 0..2 : ts' = F!DelSlice(ts, i, i + 2) /\ hist' = Append(hist, [op |-> "delslice", i |-> i, t |-> "", j |-> i + 2]) /\ last' = "ok"
 Spec == Init /\ [][Next]_vars
 
 OrderingInvariant == F!Sorted(mode, ts)
@@ -40,7 +43,8 @@ MultisetLaw == [][hist' # hist =>
    \A k \in Keys :
      F!Count(ts', k) = F!Count(ts, k)
         + (IF o.op \in {"insert", "append"} /\ k \in kOf(o.t) THEN 1 ELSE 0)
-        + (IF o.op = "extend" /\ k \in {<<11, 12>>, <<1>>} THEN 1 ELSE 0)
+        + (IF o.op \in {"extend", "setslice"} /\ k \in {<<11, 12>>, <<1>>} THEN 1 ELSE 0)
+        - (IF o.op \in {"setslice", "delslice"} THEN Cardinality({q \in (F!Clamp(ts, o.i) + 1)..F!Clamp(ts, o.j) : F!Key(ts[q]) = k}) ELSE 0)
         + (IF o.op = "setitem" /\ last' = "ok" /\ k \in kOf(o.t) THEN 1 ELSE 0)
         - (IF o.op = "setitem" /\ last' = "ok" /\ F!Key(ts[o.i + 1]) = k THEN 1 ELSE 0)
         - (IF o.op = "delitem" /\ last' = "ok" /\ F!Key(ts[o.i + 1]) = k THEN 1 ELSE 0)
